@@ -1449,8 +1449,12 @@ impl Linearizer {
         constraints: Vec<Constraint>,
         mut domain: IndexMap<String, DomainVariable>,
     ) -> Self {
-        let bounds = BoundsAnalyzer::analyze(&domain, &constraints);
-        bounds.apply_to_domain(&mut domain);
+        let mut bounds = BoundsAnalyzer::analyze(&domain, &constraints);
+        for name in bounds.apply_to_domain(&mut domain) {
+            if let Some(variable) = domain.get(&name) {
+                bounds.reset_to_declared(&name, variable.get_type());
+            }
+        }
         Self::new_from_with_bounds(constraints, domain, bounds)
     }
 
@@ -1547,8 +1551,14 @@ impl Linearizer {
     /// * `Err(LinearizationError)` - If linearization fails
     pub fn linearize(model: Model) -> Result<LinearModel, LinearizationError> {
         let (objective, constraints, mut domain) = model.into_components();
-        let bounds = BoundsAnalyzer::analyze(&domain, &constraints);
-        bounds.apply_to_domain(&mut domain);
+        let mut bounds = BoundsAnalyzer::analyze(&domain, &constraints);
+        // a range the domains cannot carry is not enforced by the linear model: the lowering
+        // below must not rely on it (it would let in values outside the range)
+        for name in bounds.apply_to_domain(&mut domain) {
+            if let Some(variable) = domain.get(&name) {
+                bounds.reset_to_declared(&name, variable.get_type());
+            }
+        }
         let mut context = Linearizer::new_from_with_bounds(constraints, domain, bounds);
         let objective_type = objective.objective_type.clone();
         let objective_exp = objective.rhs.flatten().simplify();
